@@ -203,56 +203,38 @@ theorem C14_example_zone_port_escape :
 
 /-! ## the independent RFC 3986 reading -/
 
-/-
-Full statement (DESIGN App. E): `parseUrl s = .ok u → refAuthority s = some r →
-  u.host = normHost r.host ∧ u.port = r.port.bind decimal ∧ u.auth = r.userinfo.map encUserinfo`.
-It is FALSE on the unchanged tree for two classes of inputs (known findings
-`rfc-mismatch:dollar-newline`, `rfc-mismatch:dotted-scheme`, witnesses below).  Proved here: the
-positional core of the agreement on the component that both readings share — for one and the same
-authority text, urllib3's split (`rpartition("@")`) and the reference split put the same text
-before / after the last `@` (so the host always follows the last `@`).  The remaining steps (same
-authority text for `_SCHEME_RE`-schemed inputs; reg-name run = text up to the first `:` when the port
-part matches) are not proved; the agreement is checked on every generated input by the oracle
-against an independent Python implementation of the reading, and the Lean `refAuthority` is compared
-with that Python implementation line by line.
--/
-theorem C14_agrees_with_rfc_partial (t : Str) (r : RefAuth)
-    (h : refAuthOfHier (47 :: 47 :: t) = some r) :
-    (r.userinfo = none → rpartitionAt (t.takeWhile authChar) = ([], t.takeWhile authChar)) ∧
-    (∀ ui, r.userinfo = some ui → (rpartitionAt (t.takeWhile authChar)).1 = ui) := by
-  simp only [refAuthOfHier] at h
-  cases hr : rpart 64 (t.takeWhile authChar) with
-  | none =>
-    rw [hr] at h
-    simp only at h
-    constructor
-    · intro _; simp [rpartitionAt, hr]
-    · intro ui hui
-      split at h
-      · split at h
-        · split at h <;> (simp only [Option.some.injEq] at h; subst h; simp at hui)
-        · simp only [Option.some.injEq] at h; subst h; simp at hui
-      · split at h <;> (simp only [Option.some.injEq] at h; subst h; simp at hui)
-  | some p =>
-    obtain ⟨a, b⟩ := p
-    rw [hr] at h
-    simp only at h
-    constructor
-    · intro hn
-      split at h
-      · split at h
-        · split at h <;> (simp only [Option.some.injEq] at h; subst h; simp at hn)
-        · simp only [Option.some.injEq] at h; subst h; simp at hn
-      · split at h <;> (simp only [Option.some.injEq] at h; subst h; simp at hn)
-    · intro ui hui
-      simp only [rpartitionAt, hr]
-      split at h
-      · split at h
-        · split at h <;> (simp only [Option.some.injEq] at h; subst h; simpa using hui)
-        · simp only [Option.some.injEq] at h; subst h; simpa using hui
-      · split at h <;> (simp only [Option.some.injEq] at h; subst h; simpa using hui)
+/-- **Agreement with the RFC 3986 reading.**  Whenever parsing succeeds and the reference reading
+finds an authority, urllib3's host, port and userinfo are those of the reference reading
+(normalised the same way): the host is `_normalize_host` of the reference host text (`None` and `""`
+identified), the port is the numeric value of the reference port text — which consists of digits
+only —, the userinfo is the text before the last `@`, percent-encoded.  So no input makes the model
+address a host other than the one the reference parser sees.
 
--- non-vacuity: the reference reading of "//a@b@c\d" has userinfo "a@b", host "c"
+Hypotheses = exactly the complement of the two known findings: the RFC scheme (if any) contains no
+`.` (`rfc-mismatch:dotted-scheme`), and the reference authority is well formed with no `"\n"` at
+the end of the port text (`rfc-mismatch:dollar-newline`; `"[::1]\n"` is `wellFormed = false`).
+Both hypotheses are decidable predicates of the *reference reading* of the input. -/
+theorem C14_agrees_with_rfc (idna : Str → Option Str) (s : Str) (u : Url) (r : RefAuth)
+    (h : parseUrlWith idna s = .ok u) (hr : refAuthority s = some r)
+    (hdot : ∀ sch, refScheme s = some sch → 46 ∉ sch)
+    (hwf : r.wellFormed = true) (hnl : ∀ p, r.port = some p → p.getLast? ≠ some 10) :
+    normalizeHost idna (some r.host) u.scheme = .ok (some (u.host.getD [])) ∧
+    (u.host = none → r.host = []) ∧
+    u.port = refPortValue r.port ∧
+    (∀ p, r.port = some p → p.all isDigitC = true) ∧
+    u.auth = refAuthValue (Gen.normalizableSchemes.contains u.scheme) r.userinfo :=
+  agrees_with_rfc idna s u r h hr hdot hwf hnl
+
+-- non-vacuity: "hTTp://a@b@C:080\d" satisfies every hypothesis; the reading is userinfo "a@b",
+-- host "C", port text "080"; urllib3 has auth "a%40b", host "c", port 80
+example : refAuthority [104, 84, 84, 112, 58, 47, 47, 97, 64, 98, 64, 67, 58, 48, 56, 48, 92, 100] =
+    some ⟨some [97, 64, 98], [67], some [48, 56, 48], true⟩ := by decide
+example : refScheme [104, 84, 84, 112, 58, 47, 47, 97, 64, 98, 64, 67, 58, 48, 56, 48, 92, 100] =
+    some [104, 84, 84, 112] := by decide
+example : parseUrl [104, 84, 84, 112, 58, 47, 47, 97, 64, 98, 64, 67, 58, 48, 56, 48, 92, 100] =
+    .ok ⟨some http, some [97, 37, 52, 48, 98], some [99], some 80, some [47, 37, 53, 67, 100], none, none⟩ := by
+  decide
+-- the reference reading of "//a@b@c\d" has userinfo "a@b", host "c"
 example : refAuthOfHier [47, 47, 97, 64, 98, 64, 99, 92, 100] = some ⟨some [97, 64, 98], [99], none, true⟩ := by
   decide
 
